@@ -463,3 +463,114 @@ func typeOrder(m *openfgav1.AuthorizationModel) string {
 	}
 	return s
 }
+
+// TestColdStart: the FIRST calls a fresh process makes to one family of entry points are made concurrently (nothing
+// of the repository has run before, so lazily built tables and caches are still empty); the sequential results are
+// computed afterwards and compared. One family per process (VERIF_RACE_COLD).
+func TestColdStart(t *testing.T) {
+	family := os.Getenv("VERIF_RACE_COLD")
+	if family == "" {
+		t.Skip("VERIF_RACE_COLD not set")
+	}
+	seed := int64(envInt("VERIF_SEED", 1))
+	workers := envInt("VERIF_RACE_WORKERS", 16)
+	r := rand.New(rand.NewSource(seed*7368787 + int64(len(family))))
+	res := result{Rounds: 1, PerMix: map[string]int{"cold:" + family: 1}}
+	mj := func(m *openfgav1.AuthorizationModel) string { b, _ := protojson.Marshal(m); return string(b) }
+	var f func(i int) string
+	var show func(i int) ([]string, string)
+	switch family {
+	case "parse", "parse-modular":
+		var texts []string
+		paramTypes := []string{"int", "string", "bool", "uint", "double", "duration", "timestamp", "ipaddress", "any", "list<string>", "map<int>", "list<any>"}
+		for i := 0; i < workers; i++ {
+			g := &gen.DSLGen{R: r}
+			txt := g.Doc(family == "parse-modular").Render(&gen.Layout{R: r, Wild: i%2 == 0, Comments: i%3 == 0})
+			if family == "parse" {
+				// every document carries a condition with parameters of several types
+				txt += fmt.Sprintf("\ncondition cold_%d(p0: %s, p1: %s, p2: %s) {\n  p0 == p0\n}\n", i, paramTypes[i%len(paramTypes)], paramTypes[(i+5)%len(paramTypes)], paramTypes[r.Intn(len(paramTypes))])
+			}
+			texts = append(texts, txt)
+		}
+		f = func(i int) string {
+			if family == "parse-modular" {
+				m, _, err := transformer.TransformModularDSLToProto(texts[i])
+				if err != nil {
+					return "ERR:" + err.Error()
+				}
+				return detKey(m)
+			}
+			return parseKey(texts[i])
+		}
+		show = func(i int) ([]string, string) { return []string{texts[i]}, "" }
+	case "render", "render-json", "build", "plain":
+		var ms []*openfgav1.AuthorizationModel
+		for i := 0; i < workers; i++ {
+			var m *openfgav1.AuthorizationModel
+			if family == "render" && i%2 == 0 {
+				m = modularUnsorted(r)
+			} else {
+				m = gen.Model(r, gen.ModelOpt{Conditions: true, Wildcards: 2, Hazards: family != "render" && family != "render-json" && i%4 == 0})
+			}
+			ms = append(ms, m)
+		}
+		f = func(i int) string {
+			switch family {
+			case "render":
+				return renderKey(ms[i], i%3 == 0)
+			case "render-json":
+				s, err := transformer.TransformJSONStringToDSL(mj(ms[i]))
+				if err != nil {
+					return "ERR:" + err.Error()
+				}
+				return *s
+			case "build":
+				return buildKey(ms[i])
+			}
+			return plainKey(ms[i])
+		}
+		show = func(i int) ([]string, string) { return nil, mj(ms[i]) }
+	case "merge":
+		var sets [][]transformer.ModuleFile
+		for i := 0; i < workers; i++ {
+			sets = append(sets, moduleFiles(r))
+		}
+		f = func(i int) string { return mergeKey(sets[i]) }
+		show = func(i int) ([]string, string) {
+			return []string{sets[i][0].Contents, sets[i][1].Contents, sets[i][2].Contents}, ""
+		}
+	case "modfile-validators":
+		mods := []string{"schema: '1.2'\ncontents:\n  - a.fga\n  - b%2Fc.fga\n", "schema: '1.2'\ncontents:\n  - ../x.fga\n", "schema: '1.1'\ncontents: [a.fga]\n", "contents:\n  - 1\n"}
+		strs := []string{"document:1", "group:eng#member", "user:*", "a b", "x:y#z w", "t:1", "", "a:b:c"}
+		f = func(i int) string {
+			mf, err := transformer.TransformModFile(mods[i%len(mods)])
+			out := fmt.Sprint(err)
+			if err == nil {
+				out = fmt.Sprintf("%+v", *mf)
+			}
+			for _, s := range strs {
+				out += fmt.Sprint(validation.ValidateUser(s), validation.ValidateObject(s), validation.ValidateRelation(s), validation.ValidateType(s), validation.ValidateUserSet(s), validation.ValidateUserWildcard(s), validation.ValidateRelationshipCondition(s))
+			}
+			return out
+		}
+		show = func(i int) ([]string, string) { return []string{mods[i%len(mods)]}, "" }
+	default:
+		t.Fatalf("unknown cold family %q", family)
+	}
+	got := make([]string, workers)
+	res.OverlappingPairs = barrierRun(workers, func(w int) { got[w] = f(w) })
+	res.Calls = int64(workers)
+	res.DistinctInputs = workers
+	for i := 0; i < workers; i++ {
+		if want := f(i); want != got[i] {
+			texts, model := show(i)
+			res.Mismatches = append(res.Mismatches, mismatch{Mix: "cold:" + family, Detail: "the first, concurrent call of a fresh process differs from the same call made afterwards", Texts: texts, Model: model, Expected: want, Observed: got[i]})
+		}
+	}
+	if out := os.Getenv("VERIF_RACE_OUT"); out != "" {
+		b, _ := json.MarshalIndent(&res, "", " ")
+		if err := os.WriteFile(out, b, 0o644); err != nil {
+			t.Fatal(err)
+		}
+	}
+}
